@@ -208,6 +208,23 @@ func (o *Origin) Abort(path string) {
 	})
 }
 
+// AbortMidBody makes the path send headers and half of body, then reset the connection (the client sees a
+// transport error while streaming the body; the URL loader retries 5 x 0.5 s).
+func (o *Origin) AbortMidBody(path string, body []byte) {
+	o.Set(path, func(w http.ResponseWriter, r *http.Request, _ []byte, _ int) {
+		w.Header().Set("Content-Length", fmt.Sprint(len(body)))
+		w.WriteHeader(200)
+		w.Write(body[:len(body)/2])
+		if f, ok := w.(http.Flusher); ok {
+			f.Flush()
+		}
+		if hj, ok := w.(http.Hijacker); ok {
+			c, _, _ := hj.Hijack()
+			c.Close()
+		}
+	})
+}
+
 // Hits returns the number of requests a path received.
 func (o *Origin) Hits(path string) int {
 	o.mu.Lock()
